@@ -234,3 +234,43 @@ func H09_BlockMix() {
 	}
 	verif.Reach("end")
 }
+
+// H09_Large: a payload above 64 KiB (66000 bytes, symbolic bytes at both ends and around offset 65536) with CRC-32 on
+// every block and a replicated hop count block: limits at which a fragment carries about 65536 bytes - where the CBOR
+// header of the payload byte string grows from three to five bytes - and a small limit that yields about seventy
+// fragments: the obligations of H09_Fragment.
+func H09_Large() {
+	const n = 66000
+	pb := PrimaryBlock{Version: dtnVersion, CRCType: CRC32, CreationTimestamp: NewCreationTimestamp(DtnTime(tsAlive), 1), Lifetime: 1000}
+	pb.Destination, pb.SourceNode, pb.ReportTo = symEID("", 1, false), symEID("", 1, false), symEID("", 1, false)
+	payload := make([]byte, n)
+	for i := range payload {
+		payload[i] = byte(i*13 + i>>8)
+	}
+	sym := verif.Bytes("pl", 6)
+	copy(payload[0:], sym[0:2])
+	copy(payload[65535:], sym[2:4])
+	copy(payload[n-2:], sym[4:6])
+	cbs := []CanonicalBlock{
+		{BlockNumber: 3, BlockControlFlags: ReplicateBlock, CRCType: CRC32, Value: &HopCountBlock{Limit: 9, Count: verif.U8("hc")}},
+		{BlockNumber: 1, CRCType: CRC32, Value: NewPayloadBlock(payload)},
+	}
+	b := MustNewBundle(pb, cbs)
+	verif.Assume(b.CheckValid() == nil)
+	orig := serialised(b)
+	base := len(orig) - n
+	k := verif.Size("k", 0, verif.Param("per", 21))
+	mtu := 1000
+	if k > 0 {
+		mtu = base + 65524 + k
+	}
+	fs, err := b.Fragment(mtu)
+	verif.Assert(err == nil && len(fs) >= 2, "a 66000-byte payload is fragmented at these limits")
+	if err != nil {
+		return
+	}
+	checkFragments(b, fs, mtu, orig)
+	r, rerr := ReassembleFragments(append([]Bundle{}, fs...))
+	verif.Assert(rerr == nil && bytes.Equal(serialised(r), orig), "reassembly is byte-identical")
+	verif.Reach("end")
+}
